@@ -447,6 +447,34 @@ fn tod(rep: &mut Report, v: &Value) {
         if (CrTimelike::hour(&cr) as i64, CrTimelike::minute(&cr) as i64, CrTimelike::second(&cr) as i64, CrTimelike::nanosecond(&cr) as i64) != (h, mi, s, sub) {
             return Err(format!("the calendar time type reads {cr}"));
         }
+        // Timelike setters: one field replaced, the others kept; out-of-range values have no result
+        if let Some(w) = v.get("with").and_then(|w| w.as_object()) {
+            for (fld, tab) in w {
+                for (val, want) in tab.as_object().unwrap() {
+                    let val: u32 = val.parse().unwrap();
+                    let want: Option<i64> = want.as_array().unwrap().first().map(|p| p[0].as_i64().unwrap() * 1_000_000_000 + p[1].as_i64().unwrap());
+                    let got = match fld.as_str() {
+                        "hour" => CrTimelike::with_hour(&t, val),
+                        "minute" => CrTimelike::with_minute(&t, val),
+                        "second" => CrTimelike::with_second(&t, val),
+                        _ => CrTimelike::with_nanosecond(&t, val),
+                    }.map(|x| x.into_i64());
+                    if got != want {
+                        return Err(format!("with_{fld}({val}) = {got:?}, want {want:?}"));
+                    }
+                    // a NaT time of day has no fields to replace
+                    let nat = match fld.as_str() {
+                        "hour" => CrTimelike::with_hour(&Time::nat(), val),
+                        "minute" => CrTimelike::with_minute(&Time::nat(), val),
+                        "second" => CrTimelike::with_second(&Time::nat(), val),
+                        _ => CrTimelike::with_nanosecond(&Time::nat(), val),
+                    };
+                    if nat.map(|x| !x.is_nat()).unwrap_or(false) {
+                        return Err(format!("NaT.with_{fld}({val}) is a valid time of day"));
+                    }
+                }
+            }
+        }
         // month-free shifts are exact
         for (ds, dn) in [(1i64, 0i64), (-1, 0), (0, 1), (3600, 500), (-45, -999)] {
             let d = TimeDelta { months: 0, inner: Duration::seconds(ds) + Duration::nanoseconds(dn) };
